@@ -136,6 +136,7 @@ class Stats:
         self.samples = {}            # class label -> case view
         self.excluded_known = 0
         self.exhausted_genomes = 0
+        self.unreproducible = []
         self.frozen = False
 
     def add(self, prop, case, out):
@@ -166,6 +167,7 @@ class Stats:
             self.samples.setdefault(k, v)
         self.excluded_known += o.excluded_known
         self.exhausted_genomes += o.exhausted_genomes
+        self.unreproducible.extend(o.unreproducible[:5])
 
 
 def derive_seed(seed, prop_id, shard):
@@ -199,7 +201,7 @@ def _shard_body(prop, tier, seed, shard, n_examples, genome_len, known):
     from .gen import Src
     stats = Stats()
     holder = {}
-    recent = collections.deque(maxlen=40)      # the cases decided just before a failure (sequence replay)
+    recent = collections.deque(maxlen=150)     # the cases decided just before a failure (sequence replay)
 
     import faulthandler
     trace_dir = os.environ.get('VERIF_TRACE_DIR')
@@ -233,7 +235,15 @@ def _shard_body(prop, tier, seed, shard, n_examples, genome_len, known):
                     stats.excluded_known += 1
                 return
             if 'first' not in holder:
-                holder['first'] = (case, out, list(recent)[:-1])
+                # a failure counts only if it reproduces in a FRESH process: alone, or after the cases that preceded it
+                # here (state left behind by earlier cases).  Otherwise it is recorded and the search goes on.
+                prelude = list(recent)[:-1]
+                if confirm_case(prop, case):
+                    prelude = []
+                elif not (prelude and confirm_case(prop, case, prelude)):
+                    stats.unreproducible.append({'signature': out.signature, 'case': prop.sample_view(case)})
+                    return
+                holder['first'] = (case, out, prelude)
             stats.frozen = True
             holder['case'] = case
             holder['out'] = out
@@ -248,7 +258,11 @@ def _shard_body(prop, tier, seed, shard, n_examples, genome_len, known):
     try:
         test()
     except Violation:
-        failure = (holder['case'], holder['out'], holder['first'][2] if holder['case'] is holder['first'][0] else [])
+        # the (confirmed) first failure with its prelude; if Hypothesis' shrinker found a smaller case, that one goes
+        # first - the parent confirms it in a fresh process and falls back to the first failure otherwise
+        failure = holder['first']
+        if prop.case_key(holder['case']) != prop.case_key(holder['first'][0]):
+            failure = (holder['case'], holder['out'], [], holder['first'])
     except Exception as e:      # noqa
         if 'first' in holder and 'Flaky' in type(e).__name__:
             # the failure did not recur when Hypothesis re-ran the same input: it depends on state left behind by
@@ -269,8 +283,11 @@ def run_shard(args):
     stats, failure = _in_big_thread(_shard_body, prop, tier, seed, shard, n_examples, genome_len, known)
     fail_ser = None
     if failure is not None:
-        case, out, prelude = failure
+        case, out, prelude = failure[:3]
         fail_ser = (case, out.signature, out.detail, prelude)
+        if len(failure) > 3:
+            fc, fo, fp = failure[3]
+            fail_ser = fail_ser + ((fc, fo.signature, fo.detail, fp),)
     return stats, fail_ser, time.time() - t0
 
 
@@ -326,6 +343,18 @@ def structural_shrink(prop, case, signature, known):
                 improved = True
                 break
     return cur, cur_out
+
+
+def confirm_case(prop, case, prelude=None):
+    """True if the case fails in a fresh interpreter too (after deciding the prelude cases first, if given)"""
+    import tempfile
+    fd, path = tempfile.mkstemp(prefix='verif-confirm-', suffix='.json')
+    try:
+        with os.fdopen(fd, 'w', encoding='utf8') as f:
+            json.dump({'case': case, 'prelude': prelude or []}, f, default=str)
+        return confirm_replay(prop, path)
+    finally:
+        os.unlink(path)
 
 
 def confirm_replay(prop, path):
@@ -396,6 +425,7 @@ def run_property(prop, tier, seed, replay=None):
 
     violations = []      # (case, signature, detail)
     preludes = {}        # case key -> cases decided before it in the same process
+    fallbacks = {}       # case key of a shrunk failure -> the first (confirmed) failure of that shard
     # 1. oracle self-test
     selfinfo = _in_big_thread(prop.selftest, tier)
     # 2. replay tier + 3. known findings
@@ -444,6 +474,8 @@ def run_property(prop, tier, seed, replay=None):
                 if fail is not None:
                     violations.append(fail[:3])
                     preludes[json.dumps(fail[0], sort_keys=True, default=str)] = fail[3]
+                    if len(fail) > 4:
+                        fallbacks[json.dumps(fail[0], sort_keys=True, default=str)] = fail[4]
     # bounded-exhaustive enumeration
     en = prop.enumerate(tier)
     if en is not None:
@@ -473,14 +505,16 @@ def run_property(prop, tier, seed, replay=None):
                 continue
             seen_sig.add(sig)
             orig_case, orig_detail = case, detail
-            try:
-                small, sout = _in_big_thread(structural_shrink, prop, case, sig, known)
-                if sout is not None:
-                    case, sig2, detail = small, sout.signature, sout.detail
-                else:
-                    sig2 = sig
-            except HarnessError:
-                sig2 = sig
+            okey = json.dumps(orig_case, sort_keys=True, default=str)
+            sig2 = sig
+            if not preludes.get(okey):
+                # self-contained failure: make it smaller
+                try:
+                    small, sout = _in_big_thread(structural_shrink, prop, case, sig, known)
+                    if sout is not None:
+                        case, sig2, detail = small, sout.signature, sout.detail
+                except HarnessError:
+                    pass
             if sig2 in seen_sig and sig2 != sig:
                 continue
             seen_sig.add(sig2)
@@ -488,12 +522,13 @@ def run_property(prop, tier, seed, replay=None):
             # a reported violation must reproduce from its replay file in a FRESH process
             if not confirm_replay(prop, path):
                 okseq = False
-                pre = preludes.get(json.dumps(orig_case, sort_keys=True, default=str))
-                if pre:
-                    path2 = write_replay(prop, orig_case, sig, orig_detail, seed, tier, prelude=pre)
+                for cand_case, cand_sig, cand_detail, pre in [(orig_case, sig, orig_detail, preludes.get(okey))] + \
+                        ([fallbacks[okey]] if okey in fallbacks else []):
+                    path2 = write_replay(prop, cand_case, cand_sig, cand_detail, seed, tier, prelude=pre or None)
                     okseq = confirm_replay(prop, path2)
                     if okseq:
-                        path, sig2 = path2, sig
+                        path, sig2 = path2, cand_sig
+                        break
                 if not okseq:
                     unreproducible.append({'signature': sig, 'replay': path})
                     print('NOTE property=%s a failure (%s) did not reproduce in a fresh process from %s, alone or after the '
@@ -533,8 +568,10 @@ def run_property(prop, tier, seed, replay=None):
                                   'the generated search beside it is a sample'
     if reported:
         coverage['violations_reported'] = reported
-    if unreproducible:
-        coverage['unreproducible_failures'] = unreproducible
+    if unreproducible or stats.unreproducible:
+        coverage['unreproducible_failures'] = unreproducible + stats.unreproducible[:10]
+        coverage['unreproducible_note'] = ('failures that did not recur in a fresh process, alone or after the up to 150 cases '
+                                           'that preceded them in their shard: not counted as violations')
     wall = time.time() - t0
     write_evidence(prop, tier, seed, 'exploration', coverage, wall, len(reported))
     print('%s %s seed=%d: evaluations=%d distinct_nontrivial=%d discarded=%d known_excluded=%d violations=%d wall=%.1fs'
